@@ -227,7 +227,7 @@ func genDetScenario(r *verifsim.Run, focus string) *aScenario {
 		case 3:
 			lo := T + r.Range(-300, 300)
 			c.Motion.TempThreshMin = clampPix(lo)
-			c.Motion.TempThreshMax = clampPix(lo + r.Range(0, 400))
+			c.Motion.TempThreshMax = clampPix(lo + r.OneOf(0, r.Range(0, 400), r.Range(0, 400))) // min == max pins the threshold
 		}
 	}
 	g := &detGen{r: r, c: c, style: r.Pick(5, 1, 0)}
